@@ -45,6 +45,8 @@ def register(reg):
                      # position of every matching key in the result (witness function: keeps invariants free of exists)
                      ('positions', 'forall(lambda k=Bytes: implies(k in self.g_map and has_prefix(prefix, k), '
                                    '0 <= lookup(g_pos, k) and lookup(g_pos, k) < len(result) and result[lookup(g_pos, k)][0] == k))'),
+                     # keys are distinct (a map): the position function is the inverse of the enumeration
+                     ('position-of-the-j-th-row', 'forall(lambda j=Int: implies(0 <= j and j < len(result), lookup(g_pos, result[j][0]) == j))'),
                      ('empty-prefix', 'implies(len(prefix) == 0, forall(lambda k=Bytes: has_prefix(prefix, k)))'),
                      ('rows', 'forall(lambda j=Int: implies(0 <= j and j < len(result), result[j][0] in self.g_map and '
                               'result[j][1] == lookup(self.g_map, result[j][0]) and has_prefix(prefix, result[j][0])))'),
